@@ -484,3 +484,187 @@ mod __verif_kani_search_small {
         kani::cover!(rec.n == 2);
     }
 }
+
+// ==== C05 / C06 with one leap-second record (thorough tier): table of <= 2 transitions, 2 types, rule none / fixed ====
+#[cfg(kani)]
+mod __verif_kani_search_leap {
+    use super::*;
+    use crate::timezone::{LeapSecond, LocalTimeType, Transition, TransitionRule};
+
+    const CAP: usize = 4;
+    const NT: usize = 2;
+
+    struct Recorder {
+        n: usize,
+        kinds: [Option<FoundDateTimeKind>; CAP],
+    }
+
+    impl DateTimeList for Recorder {
+        fn push(&mut self, found_date_time: FoundDateTimeKind) {
+            if self.n < CAP {
+                self.kinds[self.n] = Some(found_date_time);
+            }
+            self.n += 1;
+        }
+    }
+
+    fn stub_unix_time(year: i32, month: u8, month_day: u8, hour: u8, minute: u8, second: u8) -> i64 {
+        ((year as i64) << 26) | ((month as i64) << 22) | ((month_day as i64) << 17) | ((hour as i64) << 12) | ((minute as i64) << 6) | (second as i64)
+    }
+
+    fn stub_from_timespec_and_local(unix_time: i64, nanoseconds: u32, local_time_type: LocalTimeType) -> Result<DateTime, TzError> {
+        match unix_time.checked_add(local_time_type.ut_offset() as i64) {
+            Some(v) if -67768100567971200 <= v && v <= 67767976233532799 => {
+                Ok(DateTime::from_timespec_and_local_unchecked_for_verif(unix_time, nanoseconds, (0, 1, 1, 0, 0, 0), local_time_type))
+            }
+            _ => Err(TzError::OutOfRange),
+        }
+    }
+
+    fn stub_check_date_time_inputs(_year: i32, _month: u8, _month_day: u8, _hour: u8, _minute: u8, _second: u8, _nanoseconds: u32) -> Result<(), crate::error::datetime::DateTimeError> {
+        Ok(())
+    }
+
+    /// count -> UTC for a table with the single record (l, c), c = +1 or -1 (the specification of C12, written out)
+    fn g(l: i64, c: i32, t: i128) -> i128 {
+        let applies = if c > 0 { (l as i128) < t } else { l as i128 <= t };
+        if applies { t - c as i128 } else { t }
+    }
+
+    /// UTC -> count: the largest count whose UTC value is <= u (within one step of u for a single record)
+    fn f(l: i64, c: i32, u: i128) -> i128 {
+        if g(l, c, u + 1) <= u && u < g(l, c, u + 2) {
+            u + 1
+        } else if g(l, c, u) <= u && u < g(l, c, u + 1) {
+            u
+        } else {
+            u - 1
+        }
+    }
+
+    fn type_at(trans: &[Transition], ntrans: usize, rule_type: Option<usize>, l: i64, c: i32, u: i64) -> Option<usize> {
+        let t = f(l, c, u as i128);
+        if t >= trans[ntrans - 1].unix_leap_time() as i128 {
+            return rule_type;
+        }
+        let mut idx = 0;
+        let mut i = 0;
+        while i < NT {
+            if i < ntrans && trans[i].unix_leap_time() as i128 <= t {
+                idx = trans[i].local_time_type_index();
+            }
+            i += 1;
+        }
+        Some(idx)
+    }
+
+    /// BOUNDED: 1..=2 transitions, 2 types with arbitrary i32 offsets, ONE leap-second record (time >= 0, correction +1 or -1),
+    /// rule none or Fixed(last type).  Transition times are counts; the results are UTC instants.
+    #[kani::proof]
+    #[kani::unwind(6)]
+    #[kani::stub(crate::datetime::unix_time, stub_unix_time)]
+    #[kani::stub(crate::datetime::DateTime::from_timespec_and_local, stub_from_timespec_and_local)]
+    #[kani::stub(crate::datetime::check_date_time_inputs, stub_check_date_time_inputs)]
+    fn search_table_bounded_leap() {
+        let offs: [i32; 2] = [kani::any(), kani::any()];
+        kani::assume(offs[0] != i32::MIN && offs[1] != i32::MIN);
+        let types = [LocalTimeType::with_ut_offset(offs[0]).unwrap(), LocalTimeType::with_ut_offset(offs[1]).unwrap()];
+        let ntrans: usize = kani::any();
+        kani::assume(1 <= ntrans && ntrans <= NT);
+        let t: [i64; NT] = [kani::any(), kani::any()];
+        let ix: [usize; NT] = [kani::any(), kani::any()];
+        kani::assume(ix[0] < 2 && ix[1] < 2);
+        kani::assume(t[0] < t[1]);
+        // keep clear of the i64 extremes: the conversions themselves are covered by C12 (Verus), here the search logic is the subject
+        kani::assume(t[0] > i64::MIN + 4 && t[1] < i64::MAX - 4);
+        let trans_all = [Transition::new(t[0], ix[0]), Transition::new(t[1], ix[1])];
+        let trans = &trans_all[..ntrans];
+        let l: i64 = kani::any();
+        let c: i32 = if kani::any() { 1 } else { -1 };
+        kani::assume(l >= 0);
+        let leaps = [LeapSecond::new(l, c)];
+        let with_rule: bool = kani::any();
+        let last_ix = ix[ntrans - 1];
+        let rule = if with_rule { Some(TransitionRule::Fixed(types[last_ix])) } else { None };
+        let tz = TimeZoneRef::new_unchecked_for_verif(trans, &types, &leaps, &rule);
+
+        let (year, month, month_day, hour, minute, second): (i32, u8, u8, u8, u8, u8) = (kani::any(), kani::any(), kani::any(), kani::any(), kani::any(), kani::any());
+        kani::assume(month <= 12 && month_day <= 31 && hour <= 23 && minute <= 59 && second <= 60);
+        let loc = stub_unix_time(year, month, month_day, hour, minute, second) as i128;
+
+        let mut rec = Recorder { n: 0, kinds: [None; CAP] };
+        let r = find_date_time(&mut rec, year, month, month_day, hour, minute, second, 0, tz);
+        if r.is_err() {
+            return;
+        }
+        assert!(rec.n <= CAP);
+        let rule_type = if with_rule { Some(last_ix) } else { None };
+
+        let mut prev_instant: i128 = i128::MIN;
+        let mut k = 0;
+        while k < CAP {
+            if k < rec.n {
+                match rec.kinds[k] {
+                    Some(FoundDateTimeKind::Normal(dt)) => {
+                        let u = dt.unix_time();
+                        let ti = type_at(&trans_all, ntrans, rule_type, l, c, u);
+                        assert!(ti.is_some());
+                        let lt = types[ti.unwrap()];
+                        assert!(lt.ut_offset() == dt.local_time_type().ut_offset());
+                        assert!(u as i128 + lt.ut_offset() as i128 == loc);
+                        assert!(prev_instant <= u as i128);
+                        prev_instant = u as i128;
+                    }
+                    Some(FoundDateTimeKind::Skipped { before_transition, after_transition }) => {
+                        let u = before_transition.unix_time();
+                        assert!(after_transition.unix_time() == u);
+                        let a = before_transition.local_time_type().ut_offset() as i128;
+                        let b = after_transition.local_time_type().ut_offset() as i128;
+                        // reported at the UTC instant that the transition's count denotes
+                        let mut hit = false;
+                        let mut i = 0;
+                        while i < NT {
+                            if i < ntrans && g(l, c, trans_all[i].unix_leap_time() as i128) == u as i128 {
+                                let before_ix = if i == 0 { 0 } else { ix[i - 1] };
+                                if types[before_ix].ut_offset() as i128 == a && types[ix[i]].ut_offset() as i128 == b && (i + 1 < ntrans || with_rule) {
+                                    hit = true;
+                                }
+                            }
+                            i += 1;
+                        }
+                        assert!(hit);
+                        assert!(prev_instant <= u as i128);
+                        prev_instant = u as i128;
+                    }
+                    None => assert!(false),
+                }
+            }
+            k += 1;
+        }
+
+        // completeness of the valid results (instants deleted by the negative leap second have no clock reading: excluded)
+        let u: i64 = kani::any();
+        let deleted = c < 0 && u as i128 == l as i128;
+        if !deleted {
+            if let Some(ti) = type_at(&trans_all, ntrans, rule_type, l, c, u) {
+                if u as i128 + types[ti].ut_offset() as i128 == loc {
+                    let mut found = 0;
+                    let mut k = 0;
+                    while k < CAP {
+                        if k < rec.n {
+                            if let Some(FoundDateTimeKind::Normal(dt)) = rec.kinds[k] {
+                                if dt.unix_time() == u {
+                                    found += 1;
+                                }
+                            }
+                        }
+                        k += 1;
+                    }
+                    assert!(found == 1);
+                }
+            }
+        }
+        kani::cover!(rec.n == 0);
+        kani::cover!(rec.n == 2);
+    }
+}
